@@ -954,16 +954,24 @@ class LinkBook:
         self.world = world
         self.first = {}
 
-    def update(self, tree):
+    def update(self, tree, req=None):
         root = self.world.area.root
         top = self.world.area.top
-        for loc, (kind, _tgt, ino) in tree.items():
+        for loc, (kind, tgt, ino) in tree.items():
             if kind != 'link' or loc[:2] != ('T', 'R') or ino in self.first:
                 continue
             real = top + '/' + '/'.join(loc[1:])
             with self.world.mon.quiet():
                 res, _err = kwalk(real, True)
-            self.first[ino] = (loc, not under(root, res))
+            # "plain": created by a symlink request whose new path is
+            # already normalised and names exactly the place it landed in
+            plain = False
+            if req is not None and req[0] == 'symlink':
+                q = req[2].decode('utf-8', 'backslashreplace')
+                norm = posixpath.normpath('/' + q.lstrip('/'))
+                plain = (q in (norm, norm[1:]) and
+                         ('T', 'R') + tuple(norm[1:].split('/')) == loc)
+            self.first[ino] = (loc, not under(root, res), tgt, plain)
 
     def culprit(self, ev):
         """first symbolic link below the root followed while resolving the
@@ -1005,6 +1013,10 @@ class LinkBook:
         if first is None:
             return 'symlink-unknown-origin'
         if first[1]:
+            if first[2].startswith('/'):
+                return 'symlink-absolute-outward'
+            if first[3]:
+                return 'symlink-outward-at-creation-plain'
             return 'symlink-outward-at-creation'
         if first[0] != loc:
             return 'symlink-moved'
@@ -1026,7 +1038,7 @@ def run_sequence(world, init_tree, reqs, predicted=None):
         bad = world.judge(events)
         kinds = sorted(set(book.classify(e) for e in bad))
         tree = world.tree()
-        book.update(tree)
+        book.update(tree, (op, p, q))
         steps.append(dict(req=req_str((op, p, q)), st=st, detail=detail,
                           esc=bool(bad)))
         if bad:
